@@ -54,6 +54,10 @@ pub struct FaultSpec {
     /// metadata write must not publish the failed transaction)
     #[serde(default)]
     pub merge_after_failure: bool,
+    /// after a failed commit, run garbage_collect_files() with the same writer before anything else (the files of the
+    /// commit that is on storage must survive whatever the failed writer believes to be current)
+    #[serde(default)]
+    pub gc_after_failure: bool,
 }
 #[derive(Clone, Debug, Serialize, Deserialize)]
 pub struct FaultCase {
@@ -111,8 +115,9 @@ impl Sub for Faults {
             any::<bool>(),
             prop::bool::weighted(0.35),
             prop::bool::weighted(0.25),
+            prop::bool::weighted(0.3),
         )
-            .prop_map(|(kind, pos, permanent, thread, rollback, reuse, merge_after_failure)| FaultSpec { kind, pos, permanent, thread, rollback, reuse: reuse && !merge_after_failure, merge_after_failure });
+            .prop_map(|(kind, pos, permanent, thread, rollback, reuse, merge_after_failure, gc_after_failure)| FaultSpec { kind, pos, permanent, thread, rollback, reuse: reuse && !merge_after_failure, merge_after_failure, gc_after_failure });
         let nfaults = tier.pick(24usize, 40);
         (cfg, prop::collection::vec(op_strategy(false), 4..30), prop::collection::vec(fault, nfaults..nfaults + 1))
             .prop_map(|(cfg, ops, faults)| FaultCase { cfg, ops, faults })
@@ -293,6 +298,9 @@ fn account(cx: &Ctx, v: &Value, f: &FaultSpec, fingerprint: u64) {
     if v.get("merged_after_failure").and_then(|b| b.as_bool()).unwrap_or(false) {
         cx.label("merge_after_failed_commit");
     }
+    if v.get("gc_after_failure").and_then(|b| b.as_bool()).unwrap_or(false) {
+        cx.label("gc_after_failed_call");
+    }
     if let Some(r) = v.get("recovered_by").and_then(|r| r.as_str()) {
         cx.label(&format!("recover:{r}"));
     }
@@ -342,11 +350,11 @@ pub fn child_main(args: &[String]) -> i32 {
         let rule0 = rule_of(f, usize::MAX);
         let n = dry.log_kinds.iter().filter(|(k, t, p)| rule_matches(&rule0, *k, t, p)).count();
         let nth = idx(f.pos, n.max(1));
-        let res = run_history(&case, Some((rule_of(f, nth), f.rollback, f.reuse, f.merge_after_failure)), &cx);
+        let res = run_history(&case, Some((rule_of(f, nth), f.rollback, f.reuse, f.merge_after_failure, f.gc_after_failure)), &cx);
         let v = match res {
             Ok(r) => json!({
                 "fired": r.fired, "fired_by": r.fired_by, "api_error": r.api_error, "commit_ok_after_fault": r.commit_ok_after_fault,
-                "recovered_by": r.recovered_by, "fired_after_first_call": r.fired_after_first_call, "merged_after_failure": r.merged_after_failure, "failure": Value::Null,
+                "recovered_by": r.recovered_by, "fired_after_first_call": r.fired_after_first_call, "merged_after_failure": r.merged_after_failure, "gc_after_failure": r.gc_after_failure, "failure": Value::Null,
             }),
             Err(fl) => json!({"fired": 1, "failure": {"sig": fl.sig, "detail": fl.detail}}),
         };
@@ -378,12 +386,13 @@ struct RunReport {
     recovered_by: Option<String>,
     reused_commit_ok: bool,
     merged_after_failure: bool,
+    gc_after_failure: bool,
     fired_after_first_call: bool,
     log_kinds: Vec<(K, String, String)>,
 }
 
 /// Runs the history on a fresh SimDir, optionally with a fault armed, and applies the oracle.
-fn run_history(case: &FaultCase, fault: Option<(FaultRule, bool, bool, bool)>, cx: &Ctx) -> Result<RunReport, Failure> {
+fn run_history(case: &FaultCase, fault: Option<(FaultRule, bool, bool, bool, bool)>, cx: &Ctx) -> Result<RunReport, Failure> {
     let sd = SimDir::new();
     let mut env = Env::with_sim(case.cfg.clone(), Some(sd.clone()))?;
     env.check_quiescence = false;
@@ -392,7 +401,7 @@ fn run_history(case: &FaultCase, fault: Option<(FaultRule, bool, bool, bool)>, c
     let mut rep = RunReport::default();
     let armed_at = sd.op_count();
     let armed_log_len = sd.log_len();
-    if let Some((rule, _, _, _)) = &fault {
+    if let Some((rule, _, _, _, _)) = &fault {
         sd.set_faults(vec![rule.clone()]);
     }
     let mut failed_api: Option<(usize, String, String)> = None;
@@ -481,6 +490,13 @@ fn run_history(case: &FaultCase, fault: Option<(FaultRule, bool, bool, bool)>, c
             eprintln!("  {n:5} {:24} {:?} {} failed={}", o.thread, o.kind, o.path.display(), o.failed);
         }
         eprintln!("  api error: {failed_api:?}");
+    }
+    // optional: garbage collection with the failed writer
+    if fault.as_ref().map(|f| f.4).unwrap_or(false) && failed_api.is_some() {
+        if let Some(w) = env.writer.as_ref() {
+            let _ = w.garbage_collect_files().wait();
+            rep.gc_after_failure = true;
+        }
     }
     // optional: an explicit merge with the failed writer (its end_merge writes the metadata again)
     if fault.as_ref().map(|f| f.3).unwrap_or(false) && failed_api.as_ref().map(|x| x.1 == "commit").unwrap_or(false) {
